@@ -95,12 +95,22 @@ def project_mol(m, nl):
     return {"atoms": atoms}, off
 
 
-def build(atoms, nl, gb):
+def build(atoms, nl, gb, prov=""):
     import numpy as np
     from chmpy import Molecule
     from chmpy.core.element import Element
-    m = Molecule([Element[int(z)] for z, _ in atoms],
-                 np.array([[to_float(n, nl) for n in c] for _, c in atoms], dtype=float).reshape(-1, 3))
+    pos = np.array([[to_float(n, nl) for n in c] for _, c in atoms], dtype=float).reshape(-1, 3)
+    els = [Element[int(z)] for z, _ in atoms]
+    if prov == "loaded-edited":
+        # the molecule to be written was itself loaded from an SDF record (keeping the record text, as the reader can)
+        # and then moved: what is written must be the molecule as it is now
+        from chmpy.fmt.sdf import parse_sdf_contents
+        shift = np.array([2.0, -1.0, 3.0])
+        m0 = Molecule(els, pos - shift)
+        m = Molecule.from_sdf_dict(parse_sdf_contents(m0.to_sdf_string(), keep_sdf_text=True)[0])
+        m.translate(shift)
+    else:
+        m = Molecule(els, pos)
     if gb:
         m.guess_bonds()
     nb = len(list(m.bonds.keys())) if m.bonds is not None else 0
@@ -134,9 +144,10 @@ def sdf_write_read(mol_specs, nl, route, ext, d):
     from chmpy import Molecule
     from chmpy.fmt.sdf import parse_sdf_contents
     mols_in, texts, wexc = [], [], ""
-    for j, (atoms, gb) in enumerate(mol_specs):
+    for j, spec in enumerate(mol_specs):
+        atoms, gb = spec[0], spec[1]
         try:
-            m, nb = build(atoms, nl, gb)
+            m, nb = build(atoms, nl, gb, spec[2] if len(spec) > 2 else "")
             if route == "string":
                 texts.append(m.to_sdf_string().encode("latin-1", "replace"))
             else:
@@ -190,7 +201,7 @@ def drive(recipe):
 
 
 def drive_sdf_rt(r, d):
-    specs = [(m["atoms"], m["gb"]) for m in r["mols"]]
+    specs = [(m["atoms"], m["gb"], m.get("prov", "")) for m in r["mols"]]
     mols_in, wexc, lines, back = sdf_write_read(specs, r["nl"], r["route"], r["ext"], d)
     return {"k": "sdf_rt", "mols": mols_in, "wexc": wexc, "lines": lines, "back": back,
             "meta": {"recipe": r, "source": r.get("source", "seeded"),
@@ -464,7 +475,8 @@ def make_recipes(ctx):
             chain = rng.random() < 0.4
             n = sizes(rng, big) if nrec == 1 else rng.randint(1, 25)
             mols.append({"atoms": gen_atoms(rng, n, cls, nl, sdf_coord, chain=chain),
-                         "gb": chain or rng.random() < 0.3})
+                         "gb": chain or rng.random() < 0.3,
+                         "prov": "loaded-edited" if (cls == "typical" and nl == 1 and rng.random() < 0.3) else ""})
         route = rng.choice(["string", "file"])
         ext = ".sdf" if route == "string" else rng.choice([".sdf", ".sdf", ".SDF", "sdf", ".Sdf"])
         recipes.append({"k": "sdf_rt", "nl": nl, "route": route, "ext": ext, "mols": mols})
